@@ -196,7 +196,7 @@ def _pool_guarded(pair):
     return pair[0], _POOL_FN(pair[1])
 
 
-def pool_run(fn, items, is_bad, stop_after=25, procs=None):
+def pool_run(fn, items, is_bad, stop_after=25, procs=None, is_settled=None, settled_after=240):
     """Unordered fork-based parallel map that stops evaluating once `stop_after`
     results are bad (a broken tree can make every scenario slow; one report per
     class is enough).  The stop is cooperative (a fork-inherited Event turns the
@@ -209,12 +209,14 @@ def pool_run(fn, items, is_bad, stop_after=25, procs=None):
     procs = procs or min(16, os.cpu_count() or 1)
     out = []
     bad = 0
+    nset = 0        # scenarios that had to be decided with the real random source (slow): a sample of them is enough
     if procs <= 1 or len(items) < 4:
         for it in items:
             r = fn(it)
             out.append((it, r))
             bad += 1 if is_bad(r) else 0
-            if bad >= stop_after:
+            nset += 1 if (is_settled is not None and is_settled(r)) else 0
+            if bad >= stop_after or nset >= settled_after:
                 break
         return out
     ctx = mp.get_context("fork")
@@ -230,6 +232,10 @@ def pool_run(fn, items, is_bad, stop_after=25, procs=None):
             if is_bad(r):
                 bad += 1
                 if bad >= stop_after:
+                    _POOL_STOP.set()
+            if is_settled is not None and is_settled(r):
+                nset += 1
+                if nset >= settled_after:
                     _POOL_STOP.set()
         pool.close()
         pool.join()
@@ -249,3 +255,27 @@ def run_main(main):
         print("MACHINERY FAILURE (exit 2): the check itself failed; no verdict")
         sys.exit(2)
     sys.exit(rc)
+
+
+def report_settled(chk, results):
+    """notes for scenarios whose exact-stage verdict had to be settled with the real random source (harness/confirm.py)"""
+    st = [r["settled"] for r in results if r.get("settled")]
+    if not st:
+        return
+    unm = [x for x in st if x["unmodelled"]]
+    dis = [x for x in st if x["exact_stage"] and not x["confirmed"]]
+    con = [x for x in st if x["confirmed"]]
+    runs = sum(x["runs"] for x in st)
+    chk.cov["evaluations"] += runs
+    chk.part("scenarios settled with the real random source", scenarios=len(st), seeded_runs=runs, statistical_tests=sum(x["tests"] for x in st))
+    if unm:
+        chk.note("the scripted random source cannot follow the implementation in %d scenario(s) (%s): the exact decision-tree comparison is not applicable there; "
+                 "those scenarios were decided by %d seeded runs each with the real random source, arranged by event history and compared with the chain "
+                 "(structure exactly, next-event frequencies and clock rate statistically at 1e-9); %d of them showed a violation"
+                 % (len(unm), unm[0]["unmodelled"], unm[0]["runs"], len([x for x in unm if x["confirmed"]])))
+    if dis:
+        chk.note("in %d scenario(s) the exact stage reported %s (e.g. %s) but %d seeded runs each with the real random source agree with the chain at every observed history: "
+                 "the exact stage's model of how random numbers are consumed does not fit this implementation; nothing is reported for them"
+                 % (len(dis), ", ".join(sorted({k for x in dis for k in x["exact_stage"]})), (dis[0]["example"] or "")[:200], dis[0]["runs"]))
+    if con:
+        chk.note("%d scenario(s): exact-stage findings confirmed with the real random source" % len(con))
